@@ -426,6 +426,23 @@ def rule_FX3(ctx, rep):
                 ff = FlagFormula(fn, i, pm)
                 g = ff.build(i.test)
                 conj.append(g if br == 'body' else ('not', g))
+            # early exits: `if C: return / raise / continue / break` earlier in an enclosing block means not C here
+            x = astq.enclosing_stmt(node, pm)
+            while x is not None and x is not fn.node:
+                p_ = pm.get(id(x))
+                if p_ is None:
+                    break
+                for blk in astq._blocks(p_):
+                    if any(x is s_ for s_ in blk):
+                        for s_ in blk:
+                            if s_ is x:
+                                break
+                            if isinstance(s_, ast.If) and not s_.orelse and s_.body and isinstance(s_.body[-1], (ast.Return, ast.Raise, ast.Continue, ast.Break)):
+                                g_ = FlagFormula(fn, s_, pm).build(s_.test)
+                                # (an exit that does not depend on the scale or the flags -- an empty operand -- leaves before any product exists)
+                                if any(a_ == 'f' or 'frac_length' in a_ or 'integral' in a_ for a_ in atoms_of(g_)):
+                                    conj.append(('not', g_))
+                x = p_
             return ('and', conj) if conj else ('const', True)
         gs = ('or', [guard(s) for s in shifts])
         gt = ('or', [guard(t) for t in truncs])
